@@ -14,7 +14,7 @@ trap cleanup EXIT
 cd "$WT"
 if ! git apply "$OUT/patch$K.diff"; then echo "RESULT $SID patch-does-not-apply"; exit 2; fi
 PYTHONPATH="$WT:$OUT" /venv/bin/python "$DEMO" >/tmp/vs_demo_with.$SID 2>&1; DW=$?
-PYTHONPATH="$WT" timeout 1800 /venv/bin/python -m pytest -q -p no:cacheprovider -n 16 -x tests >/tmp/vs_suite.$SID 2>&1; SU=$?
+PYTHONPATH="$WT" timeout 1800 /venv/bin/python -m pytest -q -p no:cacheprovider -n ${VS_JOBS:-16} -x tests >/tmp/vs_suite.$SID 2>&1; SU=$?
 SUMMARY="$(tail -1 /tmp/vs_suite.$SID)"
 git checkout -q -- .
 PYTHONPATH="$WT:$OUT" /venv/bin/python "$DEMO" >/tmp/vs_demo_without.$SID 2>&1; DO=$?
